@@ -6,6 +6,9 @@ use std::mem::ManuallyDrop;
 
 /// identity of "no key": a token registered with `valid_under == NO_KEY` verifies under nothing
 pub const NO_KEY: u64 = u64::MAX;
+/// `valid_under` of a token whose SIGNATURE SEGMENT is not even valid base64url: decode() fails with
+/// ErrorKind::Base64 (as the real crate does, before any signature comparison)
+pub const MALFORMED_SIGNATURE: u64 = u64::MAX - 1;
 
 pub struct Token {
     pub text: String,
@@ -75,6 +78,7 @@ pub fn lookup(text: &str) -> Option<usize> {
         None
     }
 }
+pub fn valid_under(i: usize) -> u64 { unsafe { TOKENS[i].valid_under } }
 pub fn header_of(i: usize) -> Header { unsafe { TOKENS[i].header.clone() } }
 pub fn claims_of(i: usize) -> &'static Map<String, Value> { unsafe { &TOKENS[i].claims } }
 
